@@ -137,6 +137,8 @@ struct RunOut {
 struct Mem {
     versions: Vec<Mutex<BTreeMap<usize, i64>>>,
     last: Vec<Mutex<Option<RunOut>>>,
+    /// the first run of every index (to measure how often the optimistic run really saw stale values)
+    first: Vec<Mutex<Option<RunOut>>>,
     calls: Vec<AtomicU64>,
     /// closure calls started (progress indicator for the hang decision)
     progress: AtomicU64,
@@ -183,6 +185,7 @@ impl Mem {
         Mem {
             versions: (0..N_ENT).map(|_| Mutex::new(BTreeMap::new())).collect(),
             last: (0..n).map(|_| Mutex::new(None)).collect(),
+            first: (0..n).map(|_| Mutex::new(None)).collect(),
             calls: (0..n).map(|_| AtomicU64::new(0)).collect(),
             progress: AtomicU64::new(0),
             wrong_text: AtomicBool::new(false),
@@ -240,6 +243,7 @@ impl Mem {
         }
         out.reads.sort_unstable();
         out.reads.dedup();
+        self.first[idx].lock().unwrap().get_or_insert_with(|| out.clone());
         *self.last[idx].lock().unwrap() = Some(out);
     }
 
@@ -531,7 +535,15 @@ pub fn check_parallel_executor(case: &PxCase) -> CaseResult {
     }
 
     let deps = static_dependencies(case);
-    let class = if n >= 4 && deps == 0 { format!("{path}/independent") } else { path.to_string() };
+    // the optimistic run of some request saw other values than its final run: the schedule was not in batch order
+    let raced = mem.first.iter().zip(&last).any(|(f, l)| *f.lock().unwrap() != *l);
+    let class = if n >= 4 && deps == 0 {
+        format!("{path}/independent")
+    } else if raced {
+        format!("{path}/stale-first-run")
+    } else {
+        path.to_string()
+    };
     ok(n >= 4 && deps > 0, class, hash_of(case))
 }
 
